@@ -524,8 +524,11 @@ func judgeCorpus(c Case, tally *corpusTally, collect func(key, entry string)) (e
 		return nil
 	}
 	family := ""
+	_, openEndKnown := knownEntry(keyOpenEnd)
 	switch {
-	case c.Kind == "open" && (outsideDist(an.box, an.polys[0][0][0]) == 0 || outsideDist(an.box, an.polys[0][0][len(an.polys[0][0])-1]) == 0):
+	case an.endsOnBoundary > 0 && (openEndKnown || collect != nil && !an.degen):
+		// only while the finding is listed as known (it was repaired in /repo by 2656bd3): otherwise an
+		// end point on the boundary is ordinary in-domain input and judged strictly
 		family = keyOpenEnd
 	case an.degen:
 		family = keyDegenerate
@@ -550,10 +553,7 @@ func judgeCorpus(c Case, tally *corpusTally, collect func(key, entry string)) (e
 		return nil
 	}
 	if family == keyOpenEnd {
-		if _, ok := knownEntry(keyOpenEnd); ok {
-			return nil // whole family is known (predicate: an end point of open input lies exactly on the box boundary)
-		}
-		return fmt.Errorf("open input with an end point on the box boundary (family not listed as known): %v", verr)
+		return nil // whole family is known (predicate: an end point of open input lies exactly on the box boundary)
 	}
 	if listed(family, listEntry(c, cs)) {
 		return nil
@@ -645,13 +645,13 @@ func witnessCase(kind string, b orb.Bound, o int, g orb.Geometry) Case {
 	return Case{Kind: kind, Box: gen.FromBound(b), O: o, Geom: gen.G{V: g}, Lattice: 7}
 }
 
-// TestKnownWitnesses runs one explicit witness per known finding and reports the finding while the
-// witness still fails and the finding is listed; an unlisted failing witness is a violation.
-func TestKnownWitnesses(t *testing.T) {
-	ws := []struct {
-		key string
-		c   Case
-	}{
+type witness struct {
+	key string
+	c   Case
+}
+
+func witnesses() []witness {
+	return []witness{
 		{keyDegenerate, witnessCase("ring", orb.Bound{Min: orb.Point{1, 2}, Max: orb.Point{4, 5}}, 1,
 			orb.Ring{{4, 3}, {2, 6}, {2, 5}, {4, 3}})},
 		{keyMulti, witnessCase("multipolygon", orb.Bound{Min: orb.Point{1, 1}, Max: orb.Point{6, 6}}, 1,
@@ -661,6 +661,12 @@ func TestKnownWitnesses(t *testing.T) {
 		{keyOpenEnd, witnessCase("open", orb.Bound{Min: orb.Point{0, 0}, Max: orb.Point{10, 10}}, 1,
 			orb.Ring{{0, 5}, {5, 5}, {5, 0}})},
 	}
+}
+
+// TestKnownWitnesses runs one explicit witness per known finding and reports the finding while the
+// witness still fails and the finding is listed; an unlisted failing witness is a violation.
+func TestKnownWitnesses(t *testing.T) {
+	ws := witnesses()
 	for i, w := range ws {
 		stats.Eval("TestKnownWitnesses", 1)
 		var err error
@@ -767,16 +773,24 @@ func TestGenKnownList(t *testing.T) {
 				Family: "closed lattice rings of the C16 grid corpus (TestEnumGridCorpus, thorough tier) that have degenerate contact with the box and fail; inputs are canonical strings kind|box|orientation|vertices for rings of <= 3 vertices and h:<FNV-1a 64 of that string> for larger ones",
 				Inputs: deg,
 			},
-			{
-				Property: "C16", Key: keyMulti, Status: "known",
-				What:   "smartclip.MultiPolygon returns early when no OUTER ring is cut by the box: with outer rings wholly inside and others wholly outside it returns the input unchanged (polygons outside the box included), and when only a hole is cut (outer ring around the box) it returns nil although smartclip.Polygon handles the same polygon correctly",
-				Family: "multi-polygons none of whose outer rings is cut by the box boundary while (a) some outer ring is wholly inside and some ring is not, or (b) no outer ring is inside and a hole is cut; predicate implemented in props/c16 (analysis.knownMultiShape)",
-				Inputs: []string{
-					"box [1,1]-[6,6] ccw MultiPolygon{{(2,2),(3,2),(3,3),(2,3)}, {(12,2),(13,2),(13,3),(12,3)}}",
-					"box [0,0]-[10,10] ccw MultiPolygon{{outer (-5,-5),(15,-5),(15,15),(-5,15); hole (8,4),(8,6),(12,6),(12,4)}}",
-				},
-			},
 		}}
+	multiFails := false
+	for _, w := range witnesses() {
+		if w.key == keyMulti && stats.Guard(func() error { return checkCase(w.c) }) != nil {
+			multiFails = true
+		}
+	}
+	if multiFails {
+		doc.Findings = append(doc.Findings, kf.Finding{
+			Property: "C16", Key: keyMulti, Status: "known",
+			What:   "smartclip.MultiPolygon returns early when no OUTER ring is cut by the box: with outer rings wholly inside and others wholly outside it returns the input unchanged (polygons outside the box included), and when only a hole is cut (outer ring around the box) it returns nil although smartclip.Polygon handles the same polygon correctly",
+			Family: "multi-polygons none of whose outer rings is cut by the box boundary while (a) some outer ring is wholly inside and some ring is not, or (b) no outer ring is inside and a hole is cut; predicate implemented in props/c16 (analysis.knownMultiShape)",
+			Inputs: []string{
+				"box [1,1]-[6,6] ccw MultiPolygon{{(2,2),(3,2),(3,3),(2,3)}, {(12,2),(13,2),(13,3),(12,3)}}",
+				"box [0,0]-[10,10] ccw MultiPolygon{{outer (-5,-5),(15,-5),(15,15),(-5,15); hole (8,4),(8,6),(12,6),(12,4)}}",
+			},
+		})
+	}
 	if cut.failing > 0 {
 		doc.Findings = append(doc.Findings, kf.Finding{
 			Property: "C16", Key: keyOpenEnd, Status: "known",
